@@ -15,7 +15,12 @@ Init == l = 1 /\ TLCSet(1, 1)
 WalkViol(r) ==
    (IF r.acted /\ r.nested # "valid" THEN {"C07_GatedAction"} ELSE {})
    \cup (IF ~r.acted /\ r.nested = "valid" THEN {"HARNESS_HonestWalkRefused"} ELSE {})
-Viol(r) == IF r.ev = "walk" THEN WalkViol(r) ELSE
+\* sigreuse: a genuine signed request is accepted (acted1), then its sig and ts come back with ANOTHER in-domain
+\* redirect, which the proxy never signed: it must not be acted on, whatever was accepted before
+ReuseViol(r) ==
+   (IF r.acted THEN {"C07_GatedAction"} ELSE {})
+   \cup (IF ~r.acted1 THEN {"HARNESS_FreshRequestNotActedOn"} ELSE {})
+Viol(r) == IF r.ev = "walk" THEN WalkViol(r) ELSE IF r.ev = "sigreuse" THEN ReuseViol(r) ELSE
    (IF r.acted2 /\ r.age2 > 300 THEN {"C07_GatedAction"} ELSE {})
    \cup (IF ~r.acted1 /\ r.age1 <= 299 THEN {"HARNESS_FreshRequestNotActedOn"} ELSE {})
 Step == /\ l <= Len(Trace)
